@@ -96,13 +96,32 @@ class PersistenceLandscaper(BaseEstimator, TransformerMixin):
         _dgm = X[self.hom_deg]
         # Grid limits learned by an earlier fit are learned again from the new
         # data; limits fixed by the user are kept.
-        learned = getattr(self, "_learned_limits", {})
-        if self.start is None or self.start == learned.get("start"):
-            self.start = learned["start"] = min(_dgm, key=itemgetter(0))[0]
-        if self.stop is None or self.stop == learned.get("stop"):
-            self.stop = learned["stop"] = max(_dgm, key=itemgetter(1))[1]
-        self._learned_limits = learned
+        if self._start is None or self._start_learned:
+            self._start = min(_dgm, key=itemgetter(0))[0]
+            self._start_learned = True
+        if self._stop is None or self._stop_learned:
+            self._stop = max(_dgm, key=itemgetter(1))[1]
+            self._stop_learned = True
         return self
+
+    @property
+    def start(self):
+        return self._start
+
+    @start.setter
+    def start(self, value):
+        # any assignment (constructor, attribute, set_params) is the user's choice
+        self._start = value
+        self._start_learned = False
+
+    @property
+    def stop(self):
+        return self._stop
+
+    @stop.setter
+    def stop(self, value):
+        self._stop = value
+        self._stop_learned = False
 
     def transform(self, X: np.ndarray, y=None):
         """Construct persistence landscape values.
